@@ -70,8 +70,14 @@ def _over_symbolic_set(ex, e, g, st, it):
         if pure:
             return [(st, PSet(z3.Lambda([x], And(it.arr[x], cond)), 'ref'))]
     if not isinstance(e, (ast.ListComp, ast.SetComp)): raise Unsupported(f'comprehension over a set (line {e.lineno})')
+    return _as_loop(ex, e, g, st)
+
+
+def _as_loop(ex, e, g, st):
+    """execute a list/set/generator comprehension as the loop it abbreviates:
+    `_comp_result = []; for x in S: if cond: _comp_result.append(elt)`, cut by the invariant given under comp_key()"""
     name = '_comp_result'
-    add = 'append' if isinstance(e, ast.ListComp) else 'add'
+    add = 'add' if isinstance(e, ast.SetComp) else 'append'
     body = ast.Expr(ast.Call(ast.Attribute(ast.Name(name, ast.Load()), add, ast.Load()), [e.elt], []))
     if g.ifs:
         body = ast.If(g.ifs[0] if len(g.ifs) == 1 else ast.BoolOp(ast.And(), list(g.ifs)), [body], [])
@@ -140,6 +146,8 @@ def _over_symbolic_seq(ex, e, g, st, it):
     """[elt for x in <sequence of symbolic length>] without filter: the element expression is evaluated once for an
     arbitrary index j; it must have exactly one normal outcome (its path conditions become a universally quantified
     hypothesis) -- every exceptional outcome becomes "raises if some index takes that path"."""
+    if comp_key(ex, e) in ex.spec.invariants and isinstance(e, (ast.ListComp, ast.GeneratorExp, ast.SetComp)):
+        return _as_loop(ex, e, g, st)          # the contract gives an invariant: the element expression may have effects
     if g.ifs: raise Unsupported('filtered comprehension over a symbolic-length sequence')
     arr, n = seq_of(it, st)
     j = fresh('j', IntSort())
